@@ -188,6 +188,7 @@ pub struct Engine {
     pub batch: Vec<Option<(ColumnBatchBuilder, u32)>>,
     pub cmd: Vec<CommandBuffer>,
     pub cmd_spawns: Vec<usize>,
+    pub cmd_counts: Vec<usize>,
     pub guards: crate::guard_engine::Guards,
 }
 
@@ -293,6 +294,7 @@ impl Engine {
             batch: (0..4).map(|_| None).collect(),
             cmd: (0..2).map(|_| CommandBuffer::new()).collect(),
             cmd_spawns: vec![0, 0],
+            cmd_counts: vec![0, 0],
             guards: Default::default(),
         }
     }
@@ -451,6 +453,7 @@ impl Engine {
             self.batch = (0..4).map(|_| None).collect();
             self.cmd = (0..2).map(|_| CommandBuffer::new()).collect();
             self.cmd_spawns = vec![0, 0];
+            self.cmd_counts = vec![0, 0];
             self.emit(&mut obs, 0, &[], out);
             return obs;
         }
